@@ -33,6 +33,7 @@ from vf.project import Project
 
 ID = "C11"
 TECHNIQUE = "Hypothesis grammar-aware mutators + structural blow-ups + raw bytes among healthy siblings; oracle = exit in {0,1}, swallowed-failure tap empty (hook H1), sibling findings unchanged, bounded time; coverage-guided atheris stage in the thorough tier"
+HANG_IS_VIOLATION = True  # termination is part of this property: a case over the limit twice (in its shard, then alone) is a violation
 RULE = (
     "case = (valid seed file of py/ts/js/rs, sequence of 1-4 byte/token-level mutations) | (structural blow-up kind, size n, language) | "
     "raw bytes | empty/whitespace, under a drawn extension (known, upper-case, unknown, none +- shebang), between two healthy siblings. "
